@@ -87,6 +87,7 @@ def Sexp.toTy : Sexp → Option Ty
   | .node (.atom "union" :: xs) => (Sexp.toTys xs).map .union
   | .node [.atom "subclass", .atom c] => c.toNat?.map .subclass
   | .node [.atom "annotated", t] => t.toTy.map .annotated
+  | .node [.atom "tvar", .atom i] => i.toNat?.map .tvar
   | _ => none
 def Sexp.toTys : List Sexp → Option (List Ty)
   | [] => some []
@@ -126,6 +127,7 @@ def Ty.show : Ty → String
   | .union xs => "(union" ++ Ty.showList xs ++ ")"
   | .subclass c => s!"(subclass {c})"
   | .annotated t => "(annotated " ++ Ty.show t ++ ")"
+  | .tvar i => s!"(tvar {i})"
 def Ty.showList : List Ty → String
   | [] => ""
   | x :: xs => " " ++ Ty.show x ++ Ty.showList xs
